@@ -41,7 +41,9 @@ VOLATILE = ("uid", "event_created_at", "source_uid")
 
 # ----------------------------------------------------------------------------- generator
 
-LITS = ['{"a", "b"}', "[1, [2, {\"k\": \"v\"}]]", '{"k": [1, 2], "n": {"z": {"q", "r"}}}', '"txt"', "42", '{1: "one", 2: [3]}', "[]", 'regex("a+")']
+LITS = ['{"a", "b"}', "[1, [2, {\"k\": \"v\"}]]", '{"k": [1, 2], "n": {"z": {"q", "r"}}}', '"txt"', "42", '{1: "one", 2: [3]}', "[]", 'regex("a+")',
+        # the rest of the value domain: what only an expression / an action result can put into the state
+        'float("inf")', '[float("nan"), -0.0]', '{"lim": float("-inf"), "big": 2 ** 80}', "1e308 * 10", '{1.5: "x"}', '"\\ud800\\u2028"']
 WORDS = ["hi", "joke", "more", "thanks", "bye", "next", "last"]
 
 HELPER = 'flow helper $p\n  user said "go"\n  bot say "went {$p}"\n'
@@ -88,6 +90,10 @@ def g_api_program(rng):
                 lines.append(f"  $r{k} = await TellAction(k={k})")
                 lines.append(f"  bot say $r{k}")
                 feats.add("llm-action")
+            elif r < 0.5:
+                lines.append(f"  $q{k} = await ScoreAction(k={k})")
+                lines.append(f'  bot say "score {{$q{k}}}"')
+                feats.add("score-action")
             elif r < 0.55:
                 lines.append(f"  $s{k} = await SlowAction(k={k})")
                 lines.append(f'  bot say "slow {{$s{k}}}"')
@@ -279,6 +285,19 @@ def new_instance(src):
         fail_now(mode)
         return ActionResult(return_value=f"c{k}", context_updates={"from_action": k})
 
+    async def score(k: int = 0):
+        # an action whose result is a float of any kind (a distance, a time-out, a score that overflowed)
+        mode = _action_entry()
+        await _pt()
+        if mode == "llm":
+            _CALL.get()["llm_down"] = True
+            await llm_call(llm, "warm-up")
+        fail_now(mode)
+        import math
+
+        return [math.inf, -math.inf, math.nan, -0.0, 1.7976931348623157e308, 5e-324, 0.1, 2.0 ** 70][k % 8]
+
+    rails.register_action(score, name="ScoreAction")
     rails.register_action(tell, name="TellAction")
     rails.register_action(slow, name="SlowAction")
     rails.register_action(ctx, name="CtxAction")
@@ -294,7 +313,9 @@ def _canon_reply(msgs):
             return [strip(v) for v in x]
         if isinstance(x, (set, frozenset)):
             return sorted((strip(v) for v in x), key=repr)
-        if x is None or isinstance(x, (bool, int, float, str)):
+        if isinstance(x, float):
+            return x if x == x and abs(x) != float("inf") else "float:" + repr(x)  # nan != nan
+        if x is None or isinstance(x, (bool, int, str)):
             return x
         return repr(x)
 
